@@ -76,7 +76,15 @@ def gen_cases(rng, sides, n, drop):
                 p, q = q, p
             args = PC.show(p) + ' ' + PC.show(q)
         elif op == 'FR':
-            args = f'{PC.show(p)} {gen.var()}'
+            c = rng.random()
+            if c < 0.2:      # a definition with a pending substitution on ANOTHER variable than the queried one
+                p, x = G.subst_body_case(rng, gen)
+                args = f'{PC.show(p)} {x}'
+            elif c < 0.3:    # the variable does not come in through an argument of the top-level Instantiate
+                p, x = G.open_body_case(rng, gen)
+                args = f'{PC.show(p)} {x}'
+            else:
+                args = f'{PC.show(p)} {gen.var()}'
         elif op in ('MV', 'SIMP', 'HNF', 'UI', 'UA', 'DE', 'DS', 'DY', 'DX', 'DM'):
             if op in ('DE', 'DS', 'DY') and rng.random() < 0.6:
                 # leaves wrapped in notation layers so that the deconstructors have something to find
